@@ -607,7 +607,8 @@ def run(ctx):
 	r = ctx.rng("c14")
 	sim.ctrl_if_time_virtual()
 	for i in range(ctx.scale(700, 60000)):
-		session(ctx, ctx.case_rng("session", i), i)
+		with common.case_watchdog(ctx, "session", {"case": i}, first = 60, second = 60):
+			session(ctx, ctx.case_rng("session", i), i)
 		if ctx.too_many() or ctx.time_left() < 0:
 			break
 	ctx.current_case = None
